@@ -4,7 +4,7 @@
    vector p has law p; successive draws are independent). *)
 From Coq Require Import List Bool Arith ZArith QArith Qcanon Lia.
 From PV Require Import Base.Sx Base.Ravel Base.Semiring Base.FinSum Base.RefFactor.
-From PV Require Import C07.Dist C07.Model C07.ProofsForward C07.ProofsLW C07.ProofsMisc C07.ProofsGibbs C07.ProofsKernel.
+From PV Require Import C07.Dist C07.Model C07.ProofsForward C07.ProofsLW C07.ProofsMisc C07.ProofsGibbs C07.ProofsKernel C07.ProofsAdjust.
 Import ListNotations.
 Local Open Scope Qc_scope.
 
@@ -148,6 +148,28 @@ Proof.
   unfold named_row. apply map_length.
 Qed.
 Print Assumptions C07_latent_columns.
+
+(* What the property needs from _adjusted_weights.  Every law theorem above is about the ADJUSTED vector:
+   Model.fwd_dist / lw_dist draw from [node_w] = adjusted (node_dist ...), the vector pgmpy hands to
+   numpy.random.choice (compared call by call in the correspondence run).  Under wf_bn the columns sum to
+   exactly 1 and the adjustment is the identity; for a vector that is within 1e-3 of 1 (decimal-rounded
+   root priors) the adjustment keeps the length, changes ONLY the first maximal entry, by the residual
+   1 - sum, makes the sum exactly 1, and - for non-negative input - leaves every entry that is exactly 0 at 0,
+   so a zero-probability state has law 0 in the draw. *)
+Theorem C07_adjusted_weights_support : forall w w',
+  adjusted w = Ok w' ->
+  length w' = length w /\
+  qsum w' = 1 /\
+  (forall i, i <> argmax w -> nth i w' 0 = nth i w 0) /\
+  nth (argmax w) w' 0 = nth (argmax w) w 0 + (1 - qsum w) /\
+  ((forall j, (j < length w)%nat -> 0 <= nth j w 0) ->
+   forall k, nth k w 0 = 0 -> nth k w' 0 = 0 /\ wt (Nat.eqb k) (draw w') = 0).
+Proof.
+  intros w w' H. destruct (adjusted_support w w' H) as [A [B [C [D E]]]].
+  split; [exact A|]. split; [exact B|]. split; [exact C|]. split; [exact D|].
+  intros Hpos k Hk. split; [apply E; assumption|]. rewrite wt_draw. apply E; assumption.
+Qed.
+Print Assumptions C07_adjusted_weights_support.
 
 (* A fixed seed reproduces the samples.  In the model this holds BY CONSTRUCTION (the samplers are
    functions of the oracle stream); its content is carried by the correspondence run (pgmpy consumes the
